@@ -91,8 +91,8 @@ def build_extractor_config(flavour, cfg, files, units):
             else:
                 eff_path.setdefault(k, u['world'])
         for k in km:
-            if k in eff_method and eff_method[k].split('/')[0] != u['world']:
-                raise Undecided(f'effects: method {k} has conflicting world modes')
+            # an explicitly configured method effect (contracts/config.json) wins; associated
+            # functions without a receiver are called by path and never hit this table
             eff_method.setdefault(k, u['world'])
     eff_path = {k: v for k, v in eff_path.items() if v != 'AMBIGUOUS'}
     fcfg = {}
@@ -227,28 +227,30 @@ def assemble(flavour, cfg, files, active_units, ext_out, auto_weak=()):
     parts.append('} // verus!\nfn main() {}\n')
     text = ''.join(parts)
 
-    # line map
-    meta = {'units': [], 'obls': []}
-    cur_unit = None
+    # line map (units may nest: an `inner` fn inside its public wrapper)
+    meta = {'units': [], 'obls': [], 'pres': []}
+    stack = []
     cur_obl = None
     for i, ln in enumerate(text.split('\n'), start=1):
         s = ln.strip()
         if s.startswith('// @UNIT '):
             _, _, rest = s.partition('// @UNIT ')
             uid, _, src = rest.partition(' ')
-            cur_unit = {'id': uid, 'src': src, 'start': i, 'end': None}
-            meta['units'].append(cur_unit)
-        elif s.startswith('// @ENDUNIT'):
-            if cur_unit:
-                cur_unit['end'] = i
-            cur_unit = None
+            u = {'id': uid, 'src': src, 'start': i, 'end': None}
+            meta['units'].append(u)
+            stack.append(u)
             cur_obl = None
-        elif s.startswith('// @OBL '):
+        elif s.startswith('// @ENDUNIT'):
+            if stack:
+                stack.pop()['end'] = i
+            cur_obl = None
+        elif s.startswith('// @OBL ') or s.startswith('// @PRE '):
             if cur_obl:
                 cur_obl['end'] = i - 1
+            kind = 'obls' if s.startswith('// @OBL ') else 'pres'
             label = s[len('// @OBL '):].strip()
-            cur_obl = {'label': label, 'unit': cur_unit['id'] if cur_unit else None, 'start': i + 1, 'end': None, 'text': []}
-            meta['obls'].append(cur_obl)
+            cur_obl = {'label': label, 'unit': stack[-1]['id'] if stack else None, 'start': i + 1, 'end': None, 'text': []}
+            meta[kind].append(cur_obl)
         elif s.startswith('// @ENDOBL'):
             if cur_obl:
                 cur_obl['end'] = i - 1
@@ -336,9 +338,17 @@ def classify(res, meta, gen_name):
     unmapped = []
 
     def find_unit(line):
+        best = None
         for u in meta['units']:
             if u['start'] <= line <= (u['end'] or 10**9):
-                return u
+                if best is None or u['start'] >= best['start']:
+                    best = u
+        return best
+
+    def find_pre(line):
+        for o in meta['pres']:
+            if o['start'] <= line <= (o['end'] or o['start']):
+                return o
         return None
 
     def find_obl(line):
@@ -363,10 +373,14 @@ def classify(res, meta, gen_name):
         # attribute: a span inside an obligation clause -> that label; else the unit's body
         obl = None
         unit = None
+        pre = None
         for s in spans:
             o = find_obl(s['line_start'])
             if o and obl is None:
                 obl = o
+            p = find_pre(s['line_start'])
+            if p and pre is None and not s.get('is_primary'):
+                pre = p
             u = find_unit(s['line_start'])
             if u and unit is None and s.get('is_primary'):
                 unit = u
@@ -378,6 +392,9 @@ def classify(res, meta, gen_name):
                     break
         if obl is not None:
             failed.setdefault(obl['label'] + '@' + (obl['unit'] or ''), []).append(d)
+        elif pre is not None and unit is not None:
+            # a labelled precondition of a callee that the calling unit cannot establish
+            failed.setdefault('pre:' + pre['label'] + '@' + unit['id'], []).append(d)
         elif unit is not None:
             failed.setdefault(unit['id'] + '.body@' + unit['id'], []).append(d)
         else:
